@@ -488,4 +488,17 @@ theorem WF_init : WF ({} : State) := by
   intro c hc
   cases hc
 
+/-- a path either works on the receiver itself (`Clone.self`) or returns a brand-new node -/
+theorem execPath_result {st st' : State} {recv id : Nat} {p : Path} {a : Args}
+    (h : execPath st recv p a = some (st', id)) :
+    (p.clone = .self ∧ id = recv ∧ st'.nodes.length = st.nodes.length) ∨
+    (p.clone ≠ .self ∧ id = st.nodes.length ∧ st'.nodes.length = st.nodes.length + 1) := by
+  unfold execPath at h
+  simp only [bind, Option.bind_eq_some_iff] at h
+  obtain ⟨c, _, w1, _, w2, _, h⟩ := h
+  cases hc : p.clone <;> simp only [hc, pure, Option.some.injEq, Prod.mk.injEq] at h <;> obtain ⟨rfl, rfl⟩ := h
+  · left; simp
+  · right; simp
+  · right; simp
+
 end Wz.Model.Config
